@@ -1,6 +1,6 @@
 (* C14 (set half) — non-vacuity examples for Props.v *)
 From Coq Require Import NArith List Bool.
-From FV Require Import C14.Model C14.Proofs.
+From FV Require Import C14.Model C14.Proofs C14.SetObs C14.SetRange.
 Import ListNotations.
 Open Scope N_scope.
 
@@ -9,15 +9,34 @@ Definition ex_ops : list op :=
   [OInsertRange false 510 1025; OInsert true 4294967295; OInvert true; ORemove true 512;
    OIntersect false; OInsert true 7; OSubtract true; OUnion false; ORemoveRange false 1000 1023; OInvert false].
 
-Example c14_ex_modes : is_inverted (fst (run ex_ops)) = true /\ is_inverted (snd (run ex_ops)) = false.
+Example c14_ex_modes : is_inverted (fst (run ex_ops)) = false /\ is_inverted (snd (run ex_ops)) = true.
 Proof. vm_compute. split; reflexivity. Qed.
 Example c14_ex_members :
   map (is_contains (fst (run ex_ops))) [509; 510; 511; 512; 513; 999; 1000; 1023; 1024; 1025; 1026; 4294967295]
-  = [false; false; false; true; false; false; true; true; true; true; false; true].
+  = [false; false; false; true; false; false; true; true; false; false; false; true].
 Proof. vm_compute. reflexivity. Qed.
 Example c14_ex_spec_agrees :
   map (fst (run_spec ex_ops)) [509; 510; 511; 512; 513; 999; 1000; 1023; 1024; 1025; 1026; 4294967295]
   = map (is_contains (fst (run ex_ops))) [509; 510; 511; 512; 513; 999; 1000; 1023; 1024; 1025; 1026; 4294967295].
 Proof. vm_compute. reflexivity. Qed.
-Example c14_ex_len : is_len 4294967295 (fst (run ex_ops)) = 4294967296 - 490 /\ is_len 4294967295 (snd (run ex_ops)) = 2.
+Example c14_ex_len : is_len 4294967295 (fst (run ex_ops)) = 26 /\ is_len 4294967295 (snd (run ex_ops)) = 4294967296 - 517.
+Proof. vm_compute. split; reflexivity. Qed.
+
+(* the inclusive-set observation theorems have inhabited hypotheses: after ex_ops set A is inclusive *)
+Example c14_ex_incl : exists s, fst (run ex_ops) = Incl s /\ is_first 4294967295 (Incl s) = Some 512 /\
+  is_last 4294967295 (Incl s) = Some 4294967295 /\ is_iter 4294967295 (Incl s) 3 = [512; 1000; 1001].
+Proof. eexists. split; [vm_compute; reflexivity|]. vm_compute. repeat split; reflexivity. Qed.
+(* inverted set B: first / last / ranges through the exclusive-mode iterator of the model (tested, not proved) *)
+Example c14_ex_excl : is_first 4294967295 (snd (run ex_ops)) = Some 0 /\ is_last 4294967295 (snd (run ex_ops)) = Some 4294967294 /\
+  is_iter_ranges 4294967295 (snd (run ex_ops)) = [(0, 509); (1026, 4294967294)].
+Proof. vm_compute. repeat split; reflexivity. Qed.
+(* RangeSet: adjacent and overlapping ranges merge, reversed ranges are ignored *)
+Example c14_ex_rangeset : rs_extend [] [(10, 12); (20, 25); (13, 13); (5, 3); (24, 30); (4294967295, 4294967295); (0, 8)]
+  = [(0, 8); (10, 13); (20, 30); (4294967295, 4294967295)].
+Proof. vm_compute. reflexivity. Qed.
+Example c14_ex_rangeset_inter : rs_intersection [(0, 8); (10, 13); (20, 30)] [(5, 11); (13, 22)] = [(5, 8); (10, 11); (13, 13); (20, 22)].
+Proof. vm_compute. reflexivity. Qed.
+(* the bounded RangeSet theorems quantify over a non-trivial complete domain *)
+Example c14_ex_bounded_nonvacuous : (46000 <? N.of_nat (length (all_seqs 3 (all_ranges 5)))) = true /\
+  existsb (fun ins => match rs_extend [] ins with [(1, 5)] => true | _ => false end) (all_seqs 3 (all_ranges 5)) = true.
 Proof. vm_compute. split; reflexivity. Qed.
